@@ -58,6 +58,7 @@ class Engine:
         self.proofs = []          # dicts: label, verdict, path, model
         self.path_notes = []
         self.cur_path = 0
+        self.deadline = None
 
     # -------------------------------------------------------------- solver
     def check(self, *extra):
@@ -108,6 +109,8 @@ class Engine:
         if i < len(self.prefix):
             v = self.prefix[i]
         else:
+            if self.deadline is not None and time.time() > self.deadline:
+                raise PathBudget("exploration time budget exhausted")
             self.n_branch_points += 1
             rt = self.check(cond)
             rf = self.check(z3.Not(cond))
@@ -480,6 +483,30 @@ def _tobool(o):
     except ImportError:
         pass
     raise TypeError(type(o))
+
+
+class SymKey:
+    """hashable stand-in for a byte string made of possibly symbolic elements (ndarray.tobytes()):
+    constant hash, equality decided (and forked on) by the solver, so a dict lookup costs one fork
+    per stored key instead of concretising every element."""
+    __slots__ = ("elems",)
+
+    def __init__(self, elems):
+        self.elems = tuple(elems)
+
+    def __hash__(self):
+        return 0x5ca1ab1e
+
+    def __eq__(self, o):
+        if not isinstance(o, SymKey) or len(o.elems) != len(self.elems):
+            return False
+        return and_(*[(a == b) for a, b in zip(self.elems, o.elems)])
+
+    def __ne__(self, o):
+        return not_(self.__eq__(o))
+
+    def __repr__(self):
+        return f"SymKey{self.elems}"
 
 
 class SymEnum(Sym):
